@@ -1,0 +1,7 @@
+//go:build !verif
+
+package frugal
+
+// verifYield is a verification hook; it is compiled to nothing unless the
+// `verif` build tag is set.
+func verifYield(point string, id uint64) {}
